@@ -41,7 +41,20 @@ def run(ctx):
             add(id=i, alg=alg, decl_delta=-1, flush_every=100, chain=20)
             add(id=i, alg=alg, decl_delta=1, flush_every=100, chain=20)
         add(id=i, alg=4, advertised=[1, 2, 3])           # an algorithm nobody advertised or implements
+        for alg in (1, 2, 3):
+            add(id=i, alg=alg, corrupt="trailing")        # a complete stream followed by foreign bytes
+            add(id=i, alg=alg, corrupt="trailing", chain=20, flush_every=100)
     evs = ctx.drv("certcomp", {"scenarios": scns}, timeout=1200)
+    # second pass: the same scenarios one after the other in a seeded order within one process, so that decoder state
+    # carried from one handshake into the next (pooled readers, shared buffers) shows up in the following handshake
+    import random
+    order = list(scns)
+    random.Random(ctx.seed).shuffle(order)
+    nfirst = len(scns)
+    seq = [dict(s, sc=nfirst + j) for j, s in enumerate(order)]
+    evs2 = ctx.drv("certcomp", {"scenarios": seq, "sequential": True}, timeout=1200, name="certcomp_seq")
+    scns = scns + seq
+    evs = evs + evs2
     if any(e["ev"] == "Error" for e in evs):
         raise vlib.Machinery("harness error: %r" % [e for e in evs if e["ev"] == "Error"][:2])
     ctx.write_ndjson("certcomp_trace.ndjson", evs)
